@@ -51,6 +51,31 @@ func passwordTokensField(p *core.Program) string {
 	return fieldByType(p, "Password", func(t types.Type) bool { return core.NamedOf(t) == core.ModulePath+".Tokens" }, "tokens")
 }
 
+// titleCallArg: v is strings.Title(x), or a call of a module function that
+// merely forwards to it (single return strings.Title(param)); returns x.
+func titleCallArg(v ssa.Value) (ssa.Value, bool) {
+	c, ok := v.(*ssa.Call)
+	if !ok || len(c.Call.Args) != 1 {
+		return nil, false
+	}
+	if core.CallName(c) == "strings.Title" {
+		return c.Call.Args[0], true
+	}
+	f := core.StaticCallee(c)
+	if f == nil || f.Blocks == nil || len(f.Params) != 1 || len(f.Blocks) != 1 {
+		return nil, false
+	}
+	rets := core.Returns(f)
+	if len(rets) != 1 || len(rets[0].Results) != 1 {
+		return nil, false
+	}
+	inner, ok := rets[0].Results[0].(*ssa.Call)
+	if !ok || core.CallName(inner) != "strings.Title" || inner.Call.Args[0] != ssa.Value(f.Params[0]) {
+		return nil, false
+	}
+	return c.Call.Args[0], true
+}
+
 // capitalisationGate resolves, by role, the predicate "every word is
 // capitalisable": a bool function on (a pointer to) WordList whose body is
 // `count == 0` over an integer field.
